@@ -377,6 +377,11 @@ pub fn cap(id: u32) {
 pub fn require_thread<T: Send + 'static>(f: impl FnOnce() -> T + Send + 'static) -> T {
     f()
 }
+/// The future of a task-spawning macro over `Send + 'static` branches can itself be handed to another
+/// task (e.g. as a branch of an enclosing task-spawning macro): it is `Send`.
+pub fn require_send<F: std::future::Future + Send>(f: F) -> F {
+    f
+}
 pub fn require_task<T: Send + 'static>(f: impl std::future::Future<Output = T> + Send + 'static) -> impl std::future::Future<Output = T> + Send + 'static {
     f
 }
